@@ -4,7 +4,7 @@ CONSTANTS
   NInsts = 2
   Bodies = {}
   Cfgs = {"pmaxK"}
-  Muts = {"setmax"}
+  Muts = {"setmax", "sctopt"}
   DescIds = {"d"}
   MaxBases = 2
   MaxMuts = 1
